@@ -4,6 +4,7 @@ import (
 	"fmt"
 	"os"
 	"runtime"
+	"runtime/debug"
 	"runtime/metrics"
 	"strconv"
 	"strings"
@@ -167,6 +168,9 @@ func runC05(c *Ctx) {
 		budget = 60 * time.Second
 	}
 	startRSSMonitor()
+	// goroutine stacks are capped at 256 MiB (Go's default is 1 GiB): recursion that grows with the number of input
+	// tokens dies early, as the "fatal error: stack overflow" it would be on a bigger input
+	debug.SetMaxStack(256 << 20)
 	tg := newTextGen()
 	lm := &leakMon{seen: map[string]bool{}}
 	// the monitors' own goroutines are started by the first guarded call
